@@ -1,6 +1,9 @@
 (* DF/GroupByProofs.v — streaming groupby aggregations and value_counts equal pandas on the concatenated prefix. *)
 From Coq Require Import List ZArith QArith Qcanon Bool Lia.
-From SZ Require Import DF.Frames DF.Agg DF.GroupBy DF.AggProofs.
+From SZ Require Import DF.Frames.
+From SZ Require Import DF.Agg.
+From SZ Require Import DF.GroupBy.
+From SZ Require Import DF.AggProofs.
 Import ListNotations.
 Local Open Scope Qc_scope.
 
